@@ -6,5 +6,6 @@ CONSTANTS
   Bug = "none"
   Emit = TRUE
   Samples = 0
+  EmitMod = 3
 INVARIANTS InvVisit EmitInv
 CHECK_DEADLOCK FALSE
